@@ -134,7 +134,12 @@ def bytes_to_human(value, prec=2):
     return f'{round(value / divisor, prec):g}{unit}'
 
 
-def guess_type(value: str) -> Any:
+def guess_type(value: Any) -> Any:
+    # Values from the configuration file may already be typed (TOML integers,
+    # booleans, etc), there's nothing left to guess then
+    if not isinstance(value, str):
+        return value
+
     if value.lower() in {'none', 'false', 'true'}:
         value = value.title()
 
